@@ -297,6 +297,11 @@ func c15Run(c c15Case) error {
 			if len(r.RequireSets) != len(m.RequireSets) {
 				return fmt.Errorf("step %d: %s changed RequireSets to %q (caller set %q)", step, method, r.RequireSets, m.RequireSets)
 			}
+			for i, sv := range r.RequireSets[:cap(r.RequireSets)] {
+				if i >= len(r.RequireSets) && sv != spareSentinel && sv != "" {
+					return fmt.Errorf("step %d: %s wrote %q into the spare capacity behind the caller's RequireSets slice", step, method, sv)
+				}
+			}
 			for i := range m.RequireSets {
 				if r.RequireSets[i] != m.RequireSets[i] || callerSets[op.Target][i] != m.RequireSets[i] {
 					return fmt.Errorf("step %d: %s modified the caller's RequireSets slice: %q, caller wrote %q", step, method, callerSets[op.Target], m.RequireSets)
@@ -404,6 +409,12 @@ func c15Gen(t *rapid.T) c15Case {
 }
 
 func TestC15(t *testing.T) {
+	ev.Fixed(t, "c15_first_call", func(do func(int) bool) { do(0) }, func(int) error {
+		if ev.Cfg.Replay != "" {
+			return nil // only meaningful as the first thing a process does
+		}
+		return firstCallCheck()
+	})
 	if !requireHooks(t) {
 		return
 	}
